@@ -97,26 +97,33 @@ def make_job(prog, name, mode2D, maxits, max_paths):
                 ast=P.to_json(prog))
 
 
-def judge(c, exe, job, res, record=True):
-    """Compare implementation / model / spec for one program.  Returns list of (kind, what, detail)."""
+def judge_star(args):
+    return judge(*args)
+
+
+def judge(exe, job, res, pre=None):
+    """Compare implementation / model / spec for one program.  Returns (list of (kind, what, detail),
+    dict(hist=[keys], traces=int)); pure (runs in worker processes)."""
     bad = []
+    rec = dict(hist=[], traces=0)
     prog = P.from_json(job["ast"])
     for k in ("compile_error", "walk_error", "unsupported", "crash"):
         if k in res:
             kind = "correspondence" if k in ("walk_error", "unsupported") else "harness"
             bad.append((kind, f"{k}: the compiled scenario could not be tied to the model", dict(error=res[k])))
-            return bad
+            return bad, rec
     dag = res["dag"]
     spec = P.Spec(prog)
     for n_s, runs in res["runs"].items():
         n = int(n_s)
         if runs == "too-many-paths":
-            if record:
-                c.hist("skipped:too-many-paths")
+            rec["hist"].append("skipped:too-many-paths")
             continue
         # (b) model
-        line = common.run_driver(exe, [gen_line(dag, n)])[0]
         try:
+            line = pre[(job["name"], n)] if pre and (job["name"], n) in pre else common.run_driver(exe, [gen_line(dag, n)])[0]
+            if isinstance(line, Exception):
+                raise line
             hdr, model = parse_model(line, dag)
         except Exception as e:
             bad.append(("correspondence", "model driver failed on the exported DAG", dict(error=str(e)[:500], n=n)))
@@ -157,11 +164,10 @@ def judge(c, exe, job, res, record=True):
                     break
             bad.append(("distribution", "the implementation's exact outcome distribution differs from the program's conditional prior",
                         dict(n=n, differing_outcomes=diff[:6], n_differing=len(diff), witness_path=wit)))
-        if record:
-            c.cov["traces_validated_against_impl"] += len(runs)
-            c.hist(f"paths<={10 ** len(str(len(runs)))}")
-            c.hist(f"maxIterations={n}")
-    return bad
+        rec["traces"] += len(runs)
+        rec["hist"].append(f"paths<={10 ** len(str(len(runs)))}")
+        rec["hist"].append(f"maxIterations={n}")
+    return bad, rec
 
 
 def run_jobs(jobs):
@@ -174,19 +180,42 @@ def run_jobs(jobs):
     return {r["name"]: r for r in results}
 
 
+def oracle_selftest():
+    """The RNG oracle is trusted by both comparisons: check on two tiny functions that one random.random() value
+    compared with two thresholds is ONE real (comonotone answers) while two calls are independent."""
+    import random
+    import c01_rngenum as R
+
+    def shared():
+        u = random.random()
+        return (u <= 0.5, u <= 0.25)
+
+    def indep():
+        return (random.random() <= 0.5, random.random() <= 0.25)
+    a = {r: p for _, p, r in R.enumerate_runs(shared)}
+    b = {r: p for _, p, r in R.enumerate_runs(indep)}
+    return (a == {(True, True): Fraction(1, 4), (True, False): Fraction(1, 4), (False, False): Fraction(1, 2)}
+            and b == {(True, True): Fraction(1, 8), (True, False): Fraction(3, 8), (False, True): Fraction(1, 8),
+                      (False, False): Fraction(3, 8)})
+
+
 def main():
     c = Check(PID, "proof")
     c.cov["rule"] = ("programs of the finite-discrete fragment drawn from a seeded generator over a spec AST (weighted/uniform "
                      "choices, integer ranges with random bounds, shared values, resample, lifted operators/attributes/calls/"
-                     "containers/star-unpacking, hard and soft requirements, rebinding after require, params and object "
+                     "containers/star-unpacking, 0-4 hard and soft requirements (p in 1/8..3/4, 0, 1; ~30% of the programs have >= 2 "
+                     "requirements with 0 < p < 1, see proper_soft_requirements=k), rebinding after require, params and object "
                      "properties, 2D and 3D); every RNG path of _generateInner enumerated exactly.  A case is non-trivial when "
                      "the scene depends on >= 2 random draws and has > 1 RNG path; distinct by hash of (source, maxIterations)")
     common.ensure_parser()
     if not os.environ.get("VERIF_DEV_NOPROOFS") and not c.proofs():
         c.finish()
     exe = common.build_ocaml(PID)
+    if not oracle_selftest():
+        c.violation("harness", "RNG oracle self-test failed (a shared random.random() value must be one real)",
+                    dict(test="c01.oracle_selftest"), no_input=True)
     quick = c.tier == "quick"
-    nprog = int(os.environ.get("VERIF_C01_N", 64 if quick else 2500))
+    nprog = int(os.environ.get("VERIF_C01_N", 64 if quick else 1000))
     shrunk_kinds = set()
     rng = c.rng
     jobs = []
@@ -207,12 +236,19 @@ def main():
         case = body.get("case", {})
         jobs = [case["job"]] if "job" in case else jobs[:3]
     results = run_jobs(jobs)
+    todo = [job for job in jobs if results.get(job["name"]) is not None]
+    with cf.ProcessPoolExecutor(WORKERS) as ex:      # model driver + spec evaluator per program, in parallel
+        judged = dict(zip([j["name"] for j in todo],
+                          ex.map(judge_star, [(exe, j, results[j["name"]]) for j in todo], chunksize=2)))
     for job in jobs:
         res = results.get(job["name"])
         if res is None:
             c.violation("harness", "no result for program", dict(job=job), no_input=True)
             continue
-        bad = judge(c, exe, job, res)
+        bad, rec = judged[job["name"]]
+        c.cov["traces_validated_against_impl"] += rec["traces"]
+        for k in rec["hist"]:
+            c.hist(k)
         prog = P.from_json(job["ast"])
         sp = P.Spec(prog)
         nr = sp.n_random()
@@ -245,13 +281,13 @@ def main():
                 def fails(cand, kind=kind):
                     j2 = make_job(cand, job["name"], job["mode2D"], [detail.get("n", job["maxits"][0])], job["max_paths"])
                     r2 = run_jobs([j2])[job["name"]]
-                    return any(k2 == kind for k2, _, _ in judge(c, exe, j2, r2, record=False))
+                    return any(k2 == kind for k2, _, _ in judge(exe, j2, r2)[0])
                 try:
                     sprog = shrink(prog, fails)
                     if sprog is not prog:
                         small = make_job(sprog, job["name"], job["mode2D"], [detail.get("n", job["maxits"][0])], job["max_paths"])
                         r2 = run_jobs([small])[job["name"]]
-                        for k2, w2, d2 in judge(c, exe, small, r2, record=False):
+                        for k2, w2, d2 in judge(exe, small, r2)[0]:
                             if k2 == kind:
                                 detail = d2
                                 break
